@@ -55,6 +55,35 @@ def extract(func=None):
             target = node
     if target is None:
         raise Unsupported("no nested _join_names function")
+    # the enclosing function must apply the kernel uniformly to every row of `<arg>.astype(str)` and do nothing else:
+    #   [docstring] [isinstance guard that raises] def _join_names ... return np.array([_join_names(row) for row in <arg>.astype(str)])
+    outer = next(n for n in tree.body if isinstance(n, ast.FunctionDef))
+    arg0 = outer.args.args[0].arg
+    rest = [b for b in outer.body if not (isinstance(b, ast.Expr) and isinstance(b.value, ast.Constant))]
+    kinds = []
+    for b in rest:
+        if isinstance(b, ast.If) and all(isinstance(x, ast.Raise) for x in b.body) and not b.orelse:
+            kinds.append("guard")
+        elif b is target:
+            kinds.append("kernel")
+        elif isinstance(b, ast.Return):
+            kinds.append("return")
+        else:
+            kinds.append("other")
+    if kinds.count("kernel") != 1 or kinds[-1] != "return" or "other" in kinds or kinds.count("return") != 1:
+        raise Unsupported(f"enclosing function does more than guard / kernel / return: {kinds}")
+    ret = rest[-1].value
+    ok = (isinstance(ret, ast.Call) and isinstance(ret.func, ast.Attribute) and ret.func.attr == "array" and len(ret.args) == 1
+          and isinstance(ret.args[0], (ast.ListComp, ast.GeneratorExp)) and len(ret.args[0].generators) == 1)
+    if ok:
+        comp0 = ret.args[0]
+        g0 = comp0.generators[0]
+        ok = (not g0.ifs and isinstance(comp0.elt, ast.Call) and isinstance(comp0.elt.func, ast.Name) and comp0.elt.func.id == "_join_names"
+              and len(comp0.elt.args) == 1 and isinstance(comp0.elt.args[0], ast.Name) and isinstance(g0.target, ast.Name)
+              and comp0.elt.args[0].id == g0.target.id and isinstance(g0.iter, ast.Call) and isinstance(g0.iter.func, ast.Attribute)
+              and g0.iter.func.attr == "astype" and isinstance(g0.iter.func.value, ast.Name) and g0.iter.func.value.id == arg0)
+    if not ok:
+        raise Unsupported("enclosing function does not return np.array([_join_names(row) for row in <arg>.astype(str)])")
     body = [b for b in target.body if not (isinstance(b, ast.Expr) and isinstance(b.value, ast.Constant))]
     if len(body) != 1 or not isinstance(body[0], ast.Return):
         raise Unsupported("_join_names is not a single return")
